@@ -819,7 +819,7 @@ def run(ctx):
 
     # ---- generated cases
     rng = ctx.rng("gen")
-    nprog = ctx.pick(6, 70)
+    nprog = ctx.pick(6, 45)
     max_stage2 = ctx.pick(1, 3)
     stage2_sample = ctx.pick(12, 30)
     max_names = ctx.pick(150, 700)
@@ -833,7 +833,7 @@ def run(ctx):
     fixed = targeted_programs()
     import time as _time
     import os as _os
-    gen_budget = int(_os.environ.get("C28_GEN_BUDGET", ctx.pick(45, 420)))       # seconds for the generation/implementation phase (soft: the fixed shapes always run)
+    gen_budget = int(_os.environ.get("C28_GEN_BUDGET", ctx.pick(45, 300)))       # seconds for the generation/implementation phase (soft: the fixed shapes always run)
     gen_t0 = _time.time()
     for pi in range(-len(fixed), nprog):
         if pi >= 2 and _time.time() - gen_t0 > gen_budget:
